@@ -1,7 +1,10 @@
 """AXI-Lite / AXI interconnect harness for C08 (routing, pairing, responses, stability, liveness) and the AXI part of C11.
-Masters: per direction a Moore request process (AW/W in either order or together, one outstanding request per direction in the
-base runs, bready/rready free).  Slaves: reactive ready (ready = choice, enumerated only where a request can arrive), one
-slot per direction, B after AW+W / R after AR after an arbitrary delay, valid held; fail-stop fault switch for time-out runs."""
+
+Masters: per direction a Moore request process; AW/W in either order or together; up to K outstanding requests per direction
+(K = 1 in the base runs, 2 in the '+pipelined' runs where the next AW/AR may be issued while earlier responses are pending);
+bready/rready free.  Slaves: reactive ready (ready = choice, enumerated only where a request can arrive), queues of depth Q per
+direction, B for the head AW+W pair / R for the head AR after an arbitrary delay, valid held.  Fail-stop faults for the
+time-out runs: the whole slave, or only its AW or only its W channel, stops accepting."""
 import itertools
 import fsmc  # noqa
 from migen import *
@@ -12,7 +15,7 @@ from fsmc.explore import Harness, COOP, PROGRESS
 from fsmc.design import MachineryError
 
 WAITBIT, SERVEDBIT = 256, 4096
-AWIDTH = 8          # byte address: [7:6] window, [5:4] master id, [2] tag
+AWIDTH = 8          # byte address: [7:6] window, [5:4] master id, [3:2] tag
 UNMAPPED = 3
 
 
@@ -60,17 +63,22 @@ class AxiIcDUT(Module):
 
 
 class AxiIcHarness(Harness):
-    """env = (wm, rm, ws, rs, stalls, ages)
-       wm[m]: ('I',) | ('A', tgt, tag, aw_up, w_up, aw_done, w_done) | ('B', tgt, tag) | ('T',)
-       rm[m]: ('I',) | ('A', tgt, tag) | ('R', tgt, tag) | ('T',)
-       ws[j]: (aw, w, b_up, dead)   aw / w = (m, tag) or None      rs[j]: (ar, r_up, dead)"""
+    """env = (wm, rm, ws, rs, stalls, ages, sst)
+       wm[m] = (tag, issue, pend, cool)   issue: None | (tgt, tag, aw_up, w_up, aw_done, w_done)   pend: ((tgt, tag), ...) awaiting B
+       rm[m] = (tag, issue, pend, cool)   issue: None | (tgt, tag)                                  pend: ((tgt, tag), ...) awaiting R
+       ws[j] = (awq, wq, b_up, fault)     awq / wq: ((m, tag), ...)    fault: 0 | 'all' | 'aw' | 'w'
+       rs[j] = (arq, r_up)"""
 
     def __init__(self, name, proto, kind, nm, ns, mode="mixed", timeout=None, w_before_aw=False, w_late=True, greedy=False,
-                 err=False, faults=None, unmapped=False, cap=None, die_after_accept=False, idle0=False):
+                 err=False, faults=None, unmapped=False, cap=None, die_after_accept=False, idle0=False, pipelined=False,
+                 cross_slave=False, qdepth=None):
         self.name, self.proto, self.kind, self.nm, self.ns, self.mode = name, proto, kind, nm, ns, mode
         self.timeout, self.w_before_aw, self.w_late, self.greedy, self.err = timeout, w_before_aw, w_late, greedy, err
         self.fault_sw, self.die_after_accept = faults, die_after_accept
         self.idle_addr = 0 if idle0 else (1 << AWIDTH) - 1
+        self.K = 2 if pipelined else 1
+        self.Q = qdepth or (2 if pipelined else 1)
+        self.cross_slave = cross_slave
         self.full = proto == "full"
         self.decoded = kind in ("shared", "crossbar", "decoder")
         self.has_timeout = timeout is not None and kind in ("shared", "timeout")
@@ -82,7 +90,7 @@ class AxiIcHarness(Harness):
             q.append((f"live.starve.m{m}", COOP | (WAITBIT << m), SERVEDBIT << m, (),
                       f"master {m} keeps a request pending forever and is never served although everybody cooperates"))
         self.live_queries = tuple(q)
-        self.cov = dict(collisions=0, w_first=0, b_backpressure=0, timeouts=0, rw_overlap=0)
+        self.cov = dict(collisions=0, w_first=0, b_backpressure=0, timeouts=0, rw_overlap=0, req_resp_same_cycle=0, max_outstanding=0)
 
     def build(self):
         self.dut = AxiIcDUT(self.proto, self.kind, self.nm, self.ns, self.timeout)
@@ -110,90 +118,97 @@ class AxiIcHarness(Harness):
         self.reads = self.mode in ("read", "mixed")
 
     def env_init(self):
-        return (tuple(("I", 0) for _ in range(self.nm)), tuple(("I", 0) for _ in range(self.nm)),
-                tuple((None, None, 0, 0) for _ in range(self.ns)), tuple((None, 0, 0) for _ in range(self.ns)),
+        return (tuple((0, None, (), 0) for _ in range(self.nm)), tuple((0, None, (), 0) for _ in range(self.nm)),
+                tuple(((), (), 0, 0) for _ in range(self.ns)), tuple(((), 0) for _ in range(self.ns)),
                 (), tuple((0, 0) for _ in range(self.nm)), tuple((0, 0) for _ in range(self.ns)))
 
     # ---- choices ------------------------------------------------------------------------------------
+    def start_targets(self, pend):
+        if pend and not self.cross_slave:
+            return [pend[0][0]]          # base: all outstanding requests of one master address one slave
+        return self.targets
+
     def choices(self, env):
         wm, rm, ws, rs, stalls, ages, sst = env
         per = []
         for m in range(self.nm):
-            # write process
-            st = wm[m]
+            tag, issue, pend, cool = wm[m]
             if not self.writes:
                 wc = [("-",)]
-            elif st[0] in ("I", "T"):
-                wc = [("idle",)]
-                if st[0] == "I" or self.greedy:
-                    for t in self.targets:
-                        wc.append(("start", t, 1, 1))
-                        if self.w_late:
-                            wc.append(("start", t, 1, 0))
-                        if self.w_before_aw:
-                            wc.append(("start", t, 0, 1))
-            elif st[0] == "A":
-                _, t, tag, aw_up, w_up, aw_done, w_done = st
-                opts_aw = [1] if (aw_up or aw_done) else [0, 1]
-                opts_w = [1] if (w_up or w_done) else [0, 1]
-                wc = [("cont", a, w) for a in opts_aw for w in opts_w]
             else:
-                wc = [("b", 0), ("b", 1)]
-            st = rm[m]
+                if issue is not None:
+                    t, tg, aw_up, w_up, aw_done, w_done = issue
+                    ic = [("cont", a, w) for a in ([1] if (aw_up or aw_done) else [0, 1]) for w in ([1] if (w_up or w_done) else [0, 1])]
+                else:
+                    ic = [("idle",)]
+                    if len(pend) < self.K and (not cool or self.greedy or self.K > 1):
+                        for t in self.start_targets(pend):
+                            ic.append(("start", t, 1, 1))
+                            if self.w_late:
+                                ic.append(("start", t, 1, 0))
+                            if self.w_before_aw:
+                                ic.append(("start", t, 0, 1))
+                wc = [c + (b,) for c in ic for b in ((0, 1) if pend else (0,))]
+            tag, issue, pend, cool = rm[m]
             if not self.reads:
                 rc = [("-",)]
-            elif st[0] in ("I", "T"):
-                rc = [("idle",)]
-                if st[0] == "I" or self.greedy:
-                    rc += [("start", t) for t in self.targets]
-            elif st[0] == "A":
-                rc = [("hold",)]
             else:
-                rc = [("r", 0), ("r", 1)]
+                if issue is not None:
+                    ic = [("hold",)]
+                else:
+                    ic = [("idle",)]
+                    if len(pend) < self.K and (not cool or self.greedy or self.K > 1):
+                        ic += [("start", t) for t in self.start_targets(pend)]
+                rc = [c + (b,) for c in ic for b in ((0, 1) if pend else (0,))]
             per.append([(a, b) for a in wc for b in rc])
         out = []
         for mc in itertools.product(*per):
-            # which slaves can see which channel in this cycle (from the masters' intentions)
             aw_t, w_t, ar_t = set(), set(), set()
             for m, (wcx, rcx) in enumerate(mc):
-                st = wm[m]
+                issue = wm[m][1]
                 if wcx[0] == "start":
                     if wcx[2]:
                         aw_t.add(wcx[1])
                     if wcx[3]:
                         w_t.add(wcx[1])
                 elif wcx[0] == "cont":
-                    if wcx[1] and not st[5]:
-                        aw_t.add(st[1])
-                    if wcx[2] and not st[6]:
-                        w_t.add(st[1])
+                    if wcx[1] and not issue[4]:
+                        aw_t.add(issue[0])
+                    if wcx[2] and not issue[5]:
+                        w_t.add(issue[0])
                 if rcx[0] == "start":
                     ar_t.add(rcx[1])
                 elif rcx[0] == "hold":
-                    ar_t.add(rm[m][1])
+                    ar_t.add(rm[m][1][0])
             sper = []
             for j in range(self.ns):
-                aw, w, b_up, dead = ws[j]
-                ar, r_up, rdead = rs[j]
-                # time-out runs: a live slave accepts no later than cycle T (fail-stop faults only; a slave that
-                # accepts after expiry is outside C11), i.e. it may stall a request for at most T cycles
+                awq, wq, b_up, fault = ws[j]
+                arq, r_up = rs[j]
+                # time-out runs: a live slave accepts no later than cycle T (fail-stop faults only; a slave that accepts after
+                # expiry is outside C11), i.e. it may stall a request for at most T cycles
                 may_w = self.timeout is None or sst[j][0] < self.timeout
                 may_r = self.timeout is None or sst[j][1] < self.timeout
-                c_aw = [0, 1] if (j in aw_t and aw is None and not dead and may_w) else [1]
-                c_w = [0, 1] if (j in w_t and w is None and not dead and may_w) else [1]
-                c_b = [0, 1] if (aw is not None and w is not None and not b_up and not dead) else [0]
-                c_ar = [0, 1] if (j in ar_t and ar is None and not dead and may_r) else [1]
-                c_r = [0, 1] if (ar is not None and not r_up and not dead) else [0]
+                alive = fault != "all"
+                c_aw = [0, 1] if (j in aw_t and len(awq) < self.Q and alive and fault != "aw" and may_w) else [1]
+                c_w = [0, 1] if (j in w_t and len(wq) < self.Q and alive and fault != "w" and may_w) else [1]
+                c_b = [0, 1] if (awq and wq and not b_up and alive) else [0]
+                c_ar = [0, 1] if (j in ar_t and len(arq) < self.Q and alive and may_r) else [1]
+                c_r = [0, 1] if (arq and not r_up and alive) else [0]
                 c_e = [0, 1] if (self.err and ((c_b == [0, 1]) or (c_r == [0, 1]))) else [0]
                 sper.append([x for x in itertools.product(c_aw, c_w, c_b, c_ar, c_r, c_e)])
             kills = [None]
             if self.fault_sw and not any(s[3] for s in ws):
                 for j in range(self.ns):
-                    busy = ws[j][0] is not None or ws[j][1] is not None or rs[j][0] is not None
-                    if ws[j][2] or rs[j][1]:
+                    awq, wq, b_up, fault = ws[j]
+                    arq, r_up = rs[j]
+                    if b_up or r_up:
                         continue           # a response it has already raised stays (fail-stop happens between transfers)
+                    busy = bool(awq or wq or arq)
                     if self.die_after_accept or not busy:
-                        kills.append(j)
+                        kills.append((j, "all"))
+                    if self.writes and self.Q > 1 and not wq and not awq:
+                        kills.append((j, "w"))    # only the W channel stops accepting (AW keeps being accepted)
+                        kills.append((j, "aw"))
             for sc in itertools.product(*sper):
                 for k in kills:
                     out.append((mc, sc, k))
@@ -201,45 +216,45 @@ class AxiIcHarness(Harness):
 
     # ---- what the masters present ---------------------------------------------------------------------
     def wpresent(self, env, ch, m):
-        """-> (tgt, tag, aw_valid, w_valid, bready)"""
-        st = env[0][m]
+        """-> (tgt, tag, aw_valid, w_valid) of the request in its issue phase, or None"""
+        tag, issue, pend, cool = env[0][m]
         c = ch[0][m][0]
         if c[0] == "start":
-            return (c[1], st[1], c[2], c[3], 0)
+            return (c[1], tag, c[2], c[3])
         if c[0] == "cont":
-            _, t, tag, aw_up, w_up, aw_done, w_done = st
-            return (t, tag, int(c[1] and not aw_done), int(c[2] and not w_done), 0)
-        if c[0] == "b":
-            return (st[1], st[2], 0, 0, c[1])
+            t, tg, aw_up, w_up, aw_done, w_done = issue
+            return (t, tg, int(c[1] and not aw_done), int(c[2] and not w_done))
         return None
 
     def rpresent(self, env, ch, m):
-        """-> (tgt, tag, ar_valid, rready)"""
-        st = env[1][m]
+        tag, issue, pend, cool = env[1][m]
         c = ch[0][m][1]
         if c[0] == "start":
-            return (c[1], st[1], 1, 0)
+            return (c[1], tag, 1)
         if c[0] == "hold":
-            return (st[1], st[2], 1, 0)
-        if c[0] == "r":
-            return (st[1], st[2], 0, c[1])
+            return (issue[0], issue[1], 1)
         return None
+
+    def fault_of(self, env, ch, j):
+        f = env[2][j][3]
+        if not f and ch[2] is not None and ch[2][0] == j:
+            f = ch[2][1]
+        return f
 
     def drive(self, v, env, ch):
         for m, P in enumerate(self.M):
             w = self.wpresent(env, ch, m)
             aw, wch, b = P["aw"], P["w"], P["b"]
-            # idle garbage on address / data lines
             v[aw["valid"]], v[aw["addr"]] = 0, self.idle_addr
             v[wch["valid"]], v[wch["data"]], v[wch["strb"]] = 0, 0xFFFFFFFF, 0xF
-            v[b["ready"]] = 0
+            wc = ch[0][m][0]
+            v[b["ready"]] = wc[-1] if wc[0] != "-" else 0
             if w is not None:
-                t, tag, av, wv, br = w
+                t, tag, av, wv = w
                 if av:
                     v[aw["valid"]], v[aw["addr"]] = 1, mkaddr(t, m, tag)
                 if wv:
                     v[wch["valid"]], v[wch["data"]], v[wch["strb"]] = 1, wdata(t, m, tag), 0xF
-                v[b["ready"]] = br
             if self.full:
                 v[aw["len"]] = v[aw["lock"]] = v[aw["cache"]] = v[aw["prot"]] = v[aw["qos"]] = v[aw["region"]] = 0
                 v[aw["size"]], v[aw["burst"]], v[aw["id"]] = 2, 1, m
@@ -247,34 +262,34 @@ class AxiIcHarness(Harness):
             r = self.rpresent(env, ch, m)
             ar, rch = P["ar"], P["r"]
             v[ar["valid"]], v[ar["addr"]] = 0, self.idle_addr
-            v[rch["ready"]] = 0
+            rc = ch[0][m][1]
+            v[rch["ready"]] = rc[-1] if rc[0] != "-" else 0
             if r is not None:
-                t, tag, arv, rr = r
-                if arv:
-                    v[ar["valid"]], v[ar["addr"]] = 1, mkaddr(t, m, tag)
-                v[rch["ready"]] = rr
+                t, tag, arv = r
+                v[ar["valid"]], v[ar["addr"]] = 1, mkaddr(t, m, tag)
             if self.full:
                 v[ar["len"]] = v[ar["lock"]] = v[ar["cache"]] = v[ar["prot"]] = v[ar["qos"]] = v[ar["region"]] = 0
                 v[ar["size"]], v[ar["burst"]], v[ar["id"]] = 2, 1, m
         wsx, rsx = env[2], env[3]
         for j, P in enumerate(self.S):
-            aw, w, b_up, dead = wsx[j]
-            ar, r_up, rdead = rsx[j]
+            awq, wq, b_up, _ = wsx[j]
+            arq, r_up = rsx[j]
             sc = ch[1][j]
-            dead = dead or ch[2] == j
-            v[P["aw"]["ready"]] = int(sc[0] and aw is None and not dead)
-            v[P["w"]["ready"]] = int(sc[1] and w is None and not dead)
-            bv = int((b_up or sc[2]) and aw is not None and w is not None and not dead)
+            fault = self.fault_of(env, ch, j)
+            alive = fault != "all"
+            v[P["aw"]["ready"]] = int(sc[0] and len(awq) < self.Q and alive and fault != "aw")
+            v[P["w"]["ready"]] = int(sc[1] and len(wq) < self.Q and alive and fault != "w")
+            bv = int((b_up or sc[2]) and bool(awq) and bool(wq) and alive)
             v[P["b"]["valid"]] = bv
             v[P["b"]["resp"]] = (RESP_SLVERR if sc[5] else RESP_OKAY) if bv else 3
-            v[P["ar"]["ready"]] = int(sc[3] and ar is None and not dead)
-            rv = int((r_up or sc[4]) and ar is not None and not dead)
+            v[P["ar"]["ready"]] = int(sc[3] and len(arq) < self.Q and alive)
+            rv = int((r_up or sc[4]) and bool(arq) and alive)
             v[P["r"]["valid"]] = rv
             v[P["r"]["resp"]] = (RESP_SLVERR if sc[5] else RESP_OKAY) if rv else 3
-            v[P["r"]["data"]] = (0xA000 | (j << 8) | (ar[0] << 4) | ar[1]) if rv else 0xFFFFFFFF
+            v[P["r"]["data"]] = (0xA000 | (j << 8) | (arq[0][0] << 4) | arq[0][1]) if rv else 0xFFFFFFFF
             if self.full:
-                v[P["b"]["id"]] = aw[0] if (bv and aw) else 3
-                v[P["r"]["id"]] = ar[0] if (rv and ar) else 3
+                v[P["b"]["id"]] = awq[0][0] if bv else 3
+                v[P["r"]["id"]] = arq[0][0] if rv else 3
                 v[P["r"]["last"]] = 1
 
     # ---- monitors -----------------------------------------------------------------------------------
@@ -284,7 +299,7 @@ class AxiIcHarness(Harness):
         nm, ns = self.nm, self.ns
         wp = [self.wpresent(env, ch, m) for m in range(nm)]
         rp = [self.rpresent(env, ch, m) for m in range(nm)]
-        if sum(1 for w in wp if w is not None and (w[2] or w[3])) + sum(1 for r in rp if r is not None and r[2]) > 1:
+        if sum(1 for w in wp if w is not None and (w[2] or w[3])) + sum(1 for r in rp if r is not None) > 1:
             self.cov["collisions"] += 1
         hs = lambda P, c: bool(v[P[c]["valid"]] and v[P[c]["ready"]])
         # stability of every DUT-driven valid (towards slaves: aw, w, ar; towards masters: b, r)
@@ -315,17 +330,19 @@ class AxiIcHarness(Harness):
             sst2.append((min(sst[j][0] + 1, lim) if wst else 0, min(sst[j][1] + 1, lim) if rst else 0))
         gw = v[self.grant_w] if self.grant_w is not None else None
         gr = v[self.grant_r] if self.grant_r is not None else None
-        # slave side events
+        # ---------------- slave side events ----------------
         ws2, rs2 = [], []
         flags = 0
         served = [False]*nm
+        b_from = {}     # master -> (slave, tag) of a B handshake seen at a slave port in this cycle
+        r_from = {}
         for j, P in enumerate(self.S):
-            aw, w, b_up, dead = ws[j]
-            ar, r_up, rdead = rs[j]
-            dead2 = 1 if (dead or kill == j) else 0
+            awq, wq, b_up, fault0 = ws[j]
+            arq, r_up = rs[j]
+            fault2 = self.fault_of(env, ch, j)
             if hs(P, "aw"):
                 a = v[P["aw"]["addr"]]
-                t, m, tag = a >> 6, (a >> 4) & 3, (a >> 2) & 1
+                t, m, tag = a >> 6, (a >> 4) & 3, (a >> 2) & 3
                 ok = m < nm and wp[m] is not None and wp[m][2] and (wp[m][0], wp[m][1]) == (t, tag) and a == mkaddr(t, m, tag)
                 if not ok:
                     return env, ("route.aw_unknown", f"slave {j} accepted AW addr={a:#x} that no master is presenting"), 0
@@ -333,10 +350,10 @@ class AxiIcHarness(Harness):
                     return env, ("route.aw", f"AW of master {m} for window {t} accepted by slave {j}"), 0
                 if not hs(self.M[m], "aw"):
                     return env, ("route.aw_dup", f"slave {j} accepted the AW of master {m} but the master does not see the handshake"), 0
-                aw = (m, tag)
+                awq = awq + ((m, tag),)
             if hs(P, "w"):
                 d = v[P["w"]["data"]]
-                t, m, tag = (d >> 8) & 3, (d >> 4) & 3, d & 1
+                t, m, tag = (d >> 8) & 3, (d >> 4) & 3, d & 3
                 ok = (d >> 12) == 0xD and m < nm and wp[m] is not None and wp[m][3] and (wp[m][0], wp[m][1]) == (t, tag)
                 if not ok:
                     return env, ("route.w_unknown", f"slave {j} accepted W data={d:#x} that no master is presenting"), 0
@@ -344,150 +361,158 @@ class AxiIcHarness(Harness):
                     return env, ("route.w", f"W of master {m} for window {t} accepted by slave {j}"), 0
                 if not hs(self.M[m], "w"):
                     return env, ("route.w_dup", f"slave {j} accepted the W of master {m} but the master does not see the handshake"), 0
-                w = (m, tag)
-            if aw is not None and w is not None and aw != w:
-                return env, ("route.w_pair", f"slave {j}: W {w} does not belong to the accepted AW {aw}"), 0
+                wq = wq + ((m, tag),)
+            for k in range(min(len(awq), len(wq))):
+                if awq[k] != wq[k]:
+                    return env, ("route.w_pair", f"slave {j}: W #{k} {wq[k]} does not belong to AW #{k} {awq[k]}"), 0
             bv = v[P["b"]["valid"]]
             if hs(P, "b"):
-                m = aw[0]
-                if not hs(self.M[m], "b") or wm[m][0] != "B" or (wm[m][1], wm[m][2]) != (j if self.decoded else wm[m][1], aw[1]):
-                    return env, ("resp.b_route", f"B of slave {j} for master {m} tag {aw[1]} was taken but master {m} (state {wm[m]}) did not receive it"), 0
-                served[m] = True
-                aw, w, bv = None, None, 0
-            ws2.append((aw, w, 1 if bv else 0, dead2))
+                m, tag = awq[0]
+                b_from[m] = (j, tag)
+                awq, wq, bv = awq[1:], wq[1:], 0
+            ws2.append((awq, wq, 1 if bv else 0, fault2))
             if hs(P, "ar"):
                 a = v[P["ar"]["addr"]]
-                t, m, tag = a >> 6, (a >> 4) & 3, (a >> 2) & 1
-                ok = m < nm and rp[m] is not None and rp[m][2] and (rp[m][0], rp[m][1]) == (t, tag) and a == mkaddr(t, m, tag)
+                t, m, tag = a >> 6, (a >> 4) & 3, (a >> 2) & 3
+                ok = m < nm and rp[m] is not None and (rp[m][0], rp[m][1]) == (t, tag) and a == mkaddr(t, m, tag)
                 if not ok:
                     return env, ("route.ar_unknown", f"slave {j} accepted AR addr={a:#x} that no master is presenting"), 0
                 if self.decoded and t != j:
                     return env, ("route.ar", f"AR of master {m} for window {t} accepted by slave {j}"), 0
                 if not hs(self.M[m], "ar"):
                     return env, ("route.ar_dup", f"slave {j} accepted the AR of master {m} but the master does not see the handshake"), 0
-                ar = (m, tag)
+                arq = arq + ((m, tag),)
             rv = v[P["r"]["valid"]]
             if hs(P, "r"):
-                m = ar[0]
-                if not hs(self.M[m], "r") or rm[m][0] != "R":
-                    return env, ("resp.r_route", f"R of slave {j} for master {m} was taken but master {m} (state {rm[m]}) did not receive it"), 0
-                if v[self.M[m]["r"]["data"]] != v[P["r"]["data"]] or v[self.M[m]["r"]["resp"]] != v[P["r"]["resp"]]:
-                    return env, ("resp.r_data", f"master {m} reads {v[self.M[m]['r']['data']]:#x}, slave {j} answered {v[P['r']['data']]:#x}"), 0
-                served[m] = True
-                ar, rv = None, 0
-            rs2.append((ar, 1 if rv else 0, dead2))
-        # master side events
+                m, tag = arq[0]
+                r_from[m] = (j, tag, v[P["r"]["data"]], v[P["r"]["resp"]])
+                arq, rv = arq[1:], 0
+            rs2.append((arq, 1 if rv else 0))
+        # ---------------- master side events ----------------
         wm2, rm2, ages2 = [], [], []
         coop = True
         active = False
         to_b = to_r = 0
         for m, P in enumerate(self.M):
-            st = wm[m]
+            tag, issue, pend, cool = wm[m]
             c = mc[m][0]
             w = wp[m]
             aw_hs, w_hs, b_hs = hs(P, "aw"), hs(P, "w"), hs(P, "b")
             wage, rage = ages[m]
-            if w is None or st[0] == "B":
-                if aw_hs or w_hs:
-                    return env, ("resp.ready_stray", f"master {m}: aw/w handshake without a request"), 0
-            if v[P["b"]["valid"]] and st[0] != "B":
-                return env, ("resp.b_stray", f"master {m} (write state {st}) sees b.valid"), 0
-            nxt = st
+            if w is None and (aw_hs or w_hs):
+                return env, ("resp.ready_stray", f"master {m}: aw/w handshake without a request"), 0
+            if v[P["b"]["valid"]] and not pend:
+                return env, ("resp.b_stray", f"master {m} has no write awaiting its response but sees b.valid"), 0
+            issue2, pend2, tag2, cool2 = issue, pend, tag, 0
             if c[0] in ("start", "cont"):
                 active = True
-                t, tag, av, wv, _ = w
-                if av and not wv and c[0] == "start":
-                    pass
-                if wv and not av and st[0] != "A":
+                t, tg, av, wv = w
+                if wv and not av and c[0] == "start":
                     self.cov["w_first"] += 1
-                aw_up = av and not aw_hs
-                w_up = wv and not w_hs
-                aw_done = (st[5] if st[0] == "A" else 0) or aw_hs
-                w_done = (st[6] if st[0] == "A" else 0) or w_hs
-                # accepted by somebody? (the slave-side monitors above tie slave handshakes to master handshakes;
-                # a master handshake with no slave handshake is only legal for time-out responders)
+                aw_done = (issue[4] if issue is not None else 0) or aw_hs
+                w_done = (issue[5] if issue is not None else 0) or w_hs
                 if (aw_hs or w_hs) and not self.has_timeout:
-                    seen = any((hs(S, "aw") and aw_hs and v[S["aw"]["addr"]] == mkaddr(t, m, tag)) or
-                               (hs(S, "w") and w_hs and v[S["w"]["data"]] == wdata(t, m, tag)) for S in self.S)
+                    seen = any((hs(S, "aw") and aw_hs and v[S["aw"]["addr"]] == mkaddr(t, m, tg)) or
+                               (hs(S, "w") and w_hs and v[S["w"]["data"]] == wdata(t, m, tg)) for S in self.S)
                     if not seen:
                         return env, ("route.lost", f"master {m}: aw/w handshake but no slave accepted the beat"), 0
+                if c[0] == "start":
+                    tag2 = (tag + 1) % 4
                 if aw_done and w_done:
-                    nxt = ("B", t, tag)
+                    issue2 = None
+                    pend2 = pend + ((t, tg),)
+                    if (aw_hs or w_hs) and b_hs:
+                        self.cov["req_resp_same_cycle"] += 1
                 else:
-                    nxt = ("A", t, tag, int(aw_up), int(w_up), int(aw_done), int(w_done))
+                    issue2 = (t, tg, int(av and not aw_hs), int(wv and not w_hs), int(aw_done), int(w_done))
                     if not (av or aw_done) or not (wv or w_done):
                         coop = False          # the master itself delays a channel
                 flags |= WAITBIT << m
                 wage = wage + 1 if (((av and not aw_hs) or (wv and not w_hs)) and (gw is None or gw == m)) else 0
-            elif c[0] == "b":
+            else:
+                wage = 0
+            if pend:
                 active = True
                 flags |= WAITBIT << m
-                if not c[1]:
+                if c[0] != "-" and not c[-1]:
                     coop = False
                     if v[P["b"]["valid"]]:
                         self.cov["b_backpressure"] += 1
-                if b_hs:
-                    resp = v[P["b"]["resp"]]
-                    src = [j for j, S in enumerate(self.S) if hs(S, "b")]
-                    if not src:
-                        if not self.has_timeout:
-                            return env, ("resp.b_invented", f"master {m} received a B that no slave sent"), 0
-                        if resp != RESP_SLVERR:
-                            return env, ("timeout.resp", f"master {m}: time-out response is {resp}, not SLVERR"), 0
-                        to_b += 1
-                    nxt = ("T", st[2] ^ 1)
-                    served[m] = True
-                wage = 0
-            else:
-                nxt = ("I", st[1]) if st[0] in ("I", "T") else st
-                if st[0] == "T" and False:
-                    pass
-                wage = 0
-            if st[0] == "T" and c[0] == "start" and not self.greedy:
-                coop = False                   # greedy re-request
-            wm2.append(nxt)
-            # read process
-            st = rm[m]
+            if b_hs:
+                resp = v[P["b"]["resp"]]
+                if m in b_from:
+                    j, btag = b_from.pop(m)
+                    exp = pend[0]
+                    if (j if self.decoded else exp[0], btag) != exp:
+                        return env, ("resp.b_route", f"master {m} awaits the response of request {exp} but receives the B of slave {j} for tag {btag}"), 0
+                else:
+                    if not self.has_timeout:
+                        return env, ("resp.b_invented", f"master {m} received a B that no slave sent"), 0
+                    if resp != RESP_SLVERR:
+                        return env, ("timeout.resp", f"master {m}: time-out response is {resp}, not SLVERR"), 0
+                    to_b += 1
+                pend2 = pend2[1:]
+                served[m] = True
+                cool2 = 1
+            if len(pend2) + (issue2 is not None) > self.cov["max_outstanding"]:
+                self.cov["max_outstanding"] = len(pend2) + (issue2 is not None)
+            if cool and c[0] == "start" and self.K == 1 and not self.greedy:
+                coop = False
+            wm2.append((tag2, issue2, pend2, cool2))
+            # ---- read process ----
+            tag, issue, pend, cool = rm[m]
             c = mc[m][1]
             r = rp[m]
             ar_hs, r_hs = hs(P, "ar"), hs(P, "r")
-            if v[P["r"]["valid"]] and st[0] != "R":
-                return env, ("resp.r_stray", f"master {m} (read state {st}) sees r.valid"), 0
-            if ar_hs and (r is None or not r[2]):
+            if v[P["r"]["valid"]] and not pend:
+                return env, ("resp.r_stray", f"master {m} has no read awaiting its response but sees r.valid"), 0
+            if ar_hs and r is None:
                 return env, ("resp.ready_stray", f"master {m}: ar handshake without a request"), 0
-            nxt = st
+            issue2, pend2, tag2, cool2 = issue, pend, tag, 0
             if c[0] in ("start", "hold"):
                 active = True
                 flags |= WAITBIT << m
-                t, tag = r[0], r[1]
+                t, tg = r[0], r[1]
                 if ar_hs and not self.has_timeout:
-                    if not any(hs(S, "ar") and v[S["ar"]["addr"]] == mkaddr(t, m, tag) for S in self.S):
+                    if not any(hs(S, "ar") and v[S["ar"]["addr"]] == mkaddr(t, m, tg) for S in self.S):
                         return env, ("route.lost", f"master {m}: ar handshake but no slave accepted it"), 0
-                nxt = ("R", t, tag) if ar_hs else ("A", t, tag)
+                if c[0] == "start":
+                    tag2 = (tag + 1) % 4
+                if ar_hs:
+                    issue2, pend2 = None, pend + ((t, tg),)
+                    if r_hs:
+                        self.cov["req_resp_same_cycle"] += 1
+                else:
+                    issue2 = (t, tg)
                 rage = 0 if (ar_hs or (gr is not None and gr != m)) else rage + 1
-            elif c[0] == "r":
+            else:
+                rage = 0
+            if pend:
                 active = True
                 flags |= WAITBIT << m
-                if not c[1]:
+                if c[0] != "-" and not c[-1]:
                     coop = False
-                if r_hs:
-                    src = [j for j, S in enumerate(self.S) if hs(S, "r")]
-                    if not src:
-                        if not self.has_timeout:
-                            return env, ("resp.r_invented", f"master {m} received an R that no slave sent"), 0
-                        if v[P["r"]["resp"]] != RESP_SLVERR or v[P["r"]["data"]] != 0xFFFFFFFF:
-                            return env, ("timeout.resp", f"master {m}: time-out read response resp={v[P['r']['resp']]} data={v[P['r']['data']]:#x}"), 0
-                        to_r += 1
-                    nxt = ("T", st[2] ^ 1)
-                    served[m] = True
-                rage = 0
-            else:
-                nxt = ("I", st[1]) if st[0] in ("I", "T") else st
-                rage = 0
-            if st[0] == "T" and c[0] == "start" and not self.greedy:
+            if r_hs:
+                if m in r_from:
+                    j, rtag, rdata, rresp = r_from.pop(m)
+                    exp = pend[0]
+                    if (j if self.decoded else exp[0], rtag) != exp:
+                        return env, ("resp.r_route", f"master {m} awaits the response of read {exp} but receives the R of slave {j} for tag {rtag}"), 0
+                    if v[P["r"]["data"]] != rdata or v[P["r"]["resp"]] != rresp:
+                        return env, ("resp.r_data", f"master {m} reads {v[P['r']['data']]:#x}, slave {j} answered {rdata:#x}"), 0
+                else:
+                    if not self.has_timeout:
+                        return env, ("resp.r_invented", f"master {m} received an R that no slave sent"), 0
+                    if v[P["r"]["resp"]] != RESP_SLVERR or v[P["r"]["data"]] != 0xFFFFFFFF:
+                        return env, ("timeout.resp", f"master {m}: time-out read response resp={v[P['r']['resp']]} data={v[P['r']['data']]:#x}"), 0
+                    to_r += 1
+                pend2 = pend2[1:]
+                served[m] = True
+                cool2 = 1
+            if cool and c[0] == "start" and self.K == 1 and not self.greedy:
                 coop = False
-            rm2.append(nxt)
-            if wm[m][0] in ("A", "B") and rm[m][0] in ("A", "R"):
+            rm2.append((tag2, issue2, pend2, cool2))
+            if (wm[m][1] is not None or wm[m][2]) and (rm[m][1] is not None or rm[m][2]):
                 self.cov["rw_overlap"] += 1
             # time-out deadline (shared bus / bare time-out): a request stalled for T cycles is answered by the responder
             if self.timeout is not None and (self.nm == 1 or self.grant_w is not None or self.kind == "timeout"):
@@ -499,24 +524,24 @@ class AxiIcHarness(Harness):
             else:
                 wage = rage = 0
             ages2.append((wage, rage))
-        if self.error is not None:
-            pass
+        if b_from or r_from:
+            k = list(b_from or r_from)[0]
+            return env, ("resp.lost", f"a slave's response for master {k} was taken but the master did not receive it"), 0
         # cooperation of the slaves: every enumerated ready / response choice taken
         for j in range(ns):
             s = sc[j]
-            aw, w, b_up, dead = ws[j]
-            ar, r_up, rdead = rs[j]
-            if dead or kill == j:
+            awq, wq, b_up, fault0 = ws[j]
+            arq, r_up = rs[j]
+            if self.fault_of(env, ch, j):
                 if not self.has_timeout:
                     coop = False
                 continue
             if not (s[0] and s[1] and s[3]):
                 coop = False
-            if aw is not None and w is not None and not b_up and not s[2]:
+            if awq and wq and not b_up and not s[2]:
                 coop = False
-            if ar is not None and not r_up and not s[4]:
+            if arq and not r_up and not s[4]:
                 coop = False
-        # requests that nobody can answer
         if not self.has_timeout:
             for m in range(nm):
                 if (wp[m] is not None and wp[m][0] >= ns) or (rp[m] is not None and rp[m][0] >= ns):
@@ -537,4 +562,6 @@ class AxiIcHarness(Harness):
     def vacuity(self):
         if self.nm > 1 and not self.cov["collisions"]:
             return "no simultaneous requests"
+        if self.K > 1 and not self.cov["req_resp_same_cycle"]:
+            return "a new request was never accepted in the cycle of an earlier response"
         return None
